@@ -1110,4 +1110,268 @@ Proof.
   eexists. split; [reflexivity|]. split; [reflexivity|]. intros e p k. reflexivity.
 Qed.
 
+
+(* ==================================================================================== *)
+(* 11. keepdims, swapaxes / concatenate / stack on tensor axes, out= and in-place        *)
+(* ==================================================================================== *)
+Lemma drop_axes_lead {A} axes (e p : A) k : Forall (fun a => 2 <= a) axes ->
+  drop_axes_from 0 axes (e :: p :: k) = e :: p :: drop_axes_from 2 axes k.
+Proof.
+  intros H. cbn [drop_axes_from].
+  rewrite !memb_small; [reflexivity| |]; eapply Forall_impl; try eassumption; simpl; intros; lia.
+Qed.
+
+Lemma keep_axes_lead axes Ne nPg s : Forall (fun a => 2 <= a) axes ->
+  keep_axes_from 0 axes (Ne :: nPg :: s) = Ne :: nPg :: keep_axes_from 2 axes s.
+Proof.
+  intros H. cbn [keep_axes_from].
+  rewrite !memb_small; [reflexivity| |]; eapply Forall_impl; try eassumption; simpl; intros; lia.
+Qed.
+
+(* keepdims=True: same type rule, same values as the plain reduction read at the index with the
+   reduced positions dropped; the reduced axes stay with size 1 *)
+Theorem reducer_keepdims_typing op l (a : arr) Ne nPg s :
+  shape a = Ne :: nPg :: s ->
+  let axes := map (norm_axis (2 + length s)) l in
+  (Forall (fun x => 2 <= x) axes ->
+     exists r, fe_reduce_kd V vred op (Some l) (OFe V a) = RFe V r /\
+               shape r = Ne :: nPg :: keep_axes_from 2 axes s /\
+               forall e p k, dat r (e :: p :: k) =
+                 vred op (map (fun rr => dat a (e :: p :: merge_idx 2 axes s (drop_axes_from 2 axes k) rr))
+                              (indices (select_axes_from 2 axes s)))) /\
+  (~ Forall (fun x => 2 <= x) axes ->
+     exists r, fe_reduce_kd V vred op (Some l) (OFe V a) = RPlain V r).
+Proof.
+  intros Hs axes. split.
+  - intros HF. unfold fe_reduce_kd. cbn [oarr is_fe andb]. rewrite Hs. cbn [length].
+    change (S (S (length s))) with (2 + length s). fold axes.
+    assert (K : keeps_fe_axes (Some l) (Z.of_nat (2 + length s)) = true).
+    { apply keeps_fe_axes_spec. unfold axes in HF. rewrite Forall_map in HF. exact HF. }
+    rewrite K. unfold reduce_arr_kd. cbn [C12_FeTensor.shape]. rewrite Hs.
+    rewrite (keep_axes_lead _ Ne nPg s HF). cbn [length Nat.leb].
+    eexists. split; [reflexivity|]. split; [reflexivity|].
+    intros e p k. cbn [C12_FeTensor.dat]. rewrite (drop_axes_lead _ e p k HF).
+    unfold reduce_arr. cbn [C12_FeTensor.dat]. rewrite Hs.
+    rewrite (select_axes_lead _ Ne nPg s HF). f_equal.
+    apply map_ext. intros rr. rewrite (merge_idx_lead _ Ne nPg s e p _ rr HF). reflexivity.
+  - intros HF. unfold fe_reduce_kd. cbn [oarr is_fe andb]. rewrite Hs. cbn [length].
+    change (S (S (length s))) with (2 + length s).
+    destruct (keeps_fe_axes (Some l) (Z.of_nat (2 + length s))) eqn:K.
+    + apply keeps_fe_axes_spec in K. exfalso. apply HF. unfold axes. rewrite Forall_map. exact K.
+    + eexists. reflexivity.
+Qed.
+
+(* ---- np.swapaxes ---- *)
+Lemma swap_idx_lead i j x y l : swap_idx (2 + i) (2 + j) (x :: y :: l) = x :: y :: swap_idx i j l.
+Proof.
+  unfold swap_idx. cbn [length seq map]. f_equal. f_equal.
+  rewrite <- seq_shift, map_map, <- seq_shift, map_map.
+  apply map_ext. intros m. unfold swap_pos. cbn [Nat.add Nat.eqb].
+  destruct (m =? i); [reflexivity|]. destruct (m =? j); reflexivity.
+Qed.
+
+Lemma fe_shape_single (a : arr) Ne nPg s : shape a = Ne :: nPg :: s ->
+  fe_shape_of V [OFe V a] = Some [Ne; nPg].
+Proof.
+  intros Hs. unfold fe_shape_of, fe_shape. cbn [map filter oks okind fst snd np_bcast_all].
+  unfold oshape. cbn [oarr]. rewrite Hs. cbn [firstn]. apply np_bcast_nil_r.
+Qed.
+
+(* exchanging two TENSOR axes is the same exchange in every point tensor, and stays a field *)
+Theorem swapaxes_tensor_pointwise (a : arr) Ne nPg s za zb i j :
+  shape a = Ne :: nPg :: s ->
+  norm_axis (2 + length s) za = 2 + i -> norm_axis (2 + length s) zb = 2 + j ->
+  exists r, fe_swapaxes V za zb (OFe V a) = RFe V r /\ shape r = Ne :: nPg :: swap_idx i j s /\
+            forall e p k, dat r (e :: p :: k) = dat a (e :: p :: swap_idx i j k).
+Proof.
+  intros Hs Ha Hb. unfold fe_swapaxes. cbn [oarr]. rewrite Hs. cbn [length].
+  change (S (S (length s))) with (2 + length s). rewrite Ha, Hb, swap_idx_lead.
+  eexists. split.
+  - apply wrap_on_batch with (bs := [Ne; nPg]) (X := swap_idx i j s);
+      [apply (fe_shape_single a Ne nPg s Hs) | reflexivity | reflexivity | reflexivity].
+  - split; [reflexivity|]. intros e p k. cbn [C12_FeTensor.dat]. now rewrite swap_idx_lead.
+Qed.
+
+(* ---- the typing rule AS WRITTEN (compare res.shape[:2] with (Ne, nPg)) against the SOUND rule
+   (the leading axes are preserved by the operation) ---- *)
+(* [preserved] is what the operation does to the leading axes; whenever they are preserved the
+   result does start with (Ne, nPg).  Then the written rule agrees with the sound one exactly
+   when there is no coincidence: the axes were NOT preserved and the result starts with
+   (Ne, nPg) all the same. *)
+Definition coincidence (preserved : bool) (res fs : list nat) : Prop :=
+  preserved = false /\ 2 <= length res /\ firstn 2 res = fs.
+
+Theorem wrap_rule_agrees_iff_no_coincidence (preserved : bool) res fs :
+  (preserved = true -> 2 <= length res /\ firstn 2 res = fs) ->
+  (wrap_is_fe res fs = preserved <-> ~ coincidence preserved res fs).
+Proof.
+  intros Hp. unfold coincidence, wrap_is_fe.
+  destruct preserved.
+  - destruct (Hp eq_refl) as [H1 H2]. split; [intros _ [C _]; discriminate|intros _].
+    apply andb_true_iff. split; [now apply Nat.leb_le | now apply list_eqb_eq].
+  - split.
+    + intros H [_ [H1 H2]]. apply andb_false_iff in H. destruct H as [H|H].
+      * apply Nat.leb_gt in H. lia.
+      * apply list_eqb_eq in H2. congruence.
+    + intros H. destruct ((2 <=? length res) && list_eqb (firstn 2 res) fs) eqn:E; [|reflexivity].
+      exfalso. apply H. apply andb_true_iff in E. destruct E as [E1 E2].
+      split; [reflexivity|]. split; [now apply Nat.leb_le | now apply list_eqb_eq].
+Qed.
+
+(* np.swapaxes(fe, 0, 1): the leading axes are exchanged (not preserved); the written rule types
+   the result as a field exactly in the coincidence Ne = nPg, and the "field" then holds a[p, e]
+   at (e, p) *)
+Lemma map_nth_seq0 (l : list nat) : map (fun m => nth m l 0) (seq 0 (length l)) = l.
+Proof.
+  induction l as [|x l IH]; [reflexivity|].
+  cbn [length seq map nth]. f_equal. rewrite <- seq_shift, map_map. exact IH.
+Qed.
+
+Lemma swap_idx_01 x y l : swap_idx 0 1 (x :: y :: l) = y :: x :: l.
+Proof.
+  unfold swap_idx. cbn [length seq map]. unfold swap_pos at 1 2. cbn [Nat.eqb nth]. f_equal. f_equal.
+  rewrite <- seq_shift, map_map, <- seq_shift, map_map.
+  rewrite <- (map_nth_seq0 l) at 2. apply map_ext. intros m. reflexivity.
+Qed.
+
+Theorem swapaxes_lead_typing (a : arr) Ne nPg s :
+  shape a = Ne :: nPg :: s ->
+  (Ne = nPg -> exists r, fe_swapaxes V 0%Z 1%Z (OFe V a) = RFe V r /\ shape r = nPg :: Ne :: s /\
+                         forall e p k, dat r (e :: p :: k) = dat a (p :: e :: k)) /\
+  (Ne <> nPg -> exists r, fe_swapaxes V 0%Z 1%Z (OFe V a) = RPlain V r /\ shape r = nPg :: Ne :: s).
+Proof.
+  intros Hs. unfold fe_swapaxes. cbn [oarr]. rewrite Hs. cbn [length norm_axis Z.ltb Z.compare Z.to_nat Pos.to_nat Pos.iter_op Nat.add].
+  rewrite swap_idx_01. unfold wrap. rewrite (fe_shape_single a Ne nPg s Hs). cbn [existsb is_fe orb andb].
+  unfold wrap_is_fe. cbn [C12_FeTensor.shape length Nat.leb firstn list_eqb andb]. split.
+  - intros ->. rewrite Nat.eqb_refl. cbn [andb]. eexists. split; [reflexivity|]. split; [reflexivity|].
+    intros e p k. cbn [C12_FeTensor.dat]. now rewrite swap_idx_01.
+  - intros N. destruct (nPg =? Ne) eqn:E; [apply Nat.eqb_eq in E; congruence|]. cbn [andb].
+    eexists. split; reflexivity.
+Qed.
+
+(* ---- np.stack: a NEW axis at position j ---- *)
+Lemma insert_nth_lead {A} j (v x y : A) l : insert_nth (2 + j) v (x :: y :: l) = x :: y :: insert_nth j v l.
+Proof. reflexivity. Qed.
+Lemma remove_nth_lead {A} j (x y : A) l : remove_nth (2 + j) (x :: y :: l) = x :: y :: remove_nth j l.
+Proof. reflexivity. Qed.
+
+Lemma fe_shape_two_same (a b : arr) Ne nPg s t : shape a = Ne :: nPg :: s -> shape b = Ne :: nPg :: t ->
+  fe_shape_of V [OFe V a; OFe V b] = Some [Ne; nPg].
+Proof.
+  intros Ha Hb. unfold fe_shape_of, fe_shape. cbn [map filter oks okind fst snd np_bcast_all].
+  unfold oshape. cbn [oarr]. rewrite Ha, Hb. cbn [firstn]. rewrite np_bcast_nil_r. apply np_bcast_refl.
+Qed.
+
+(* stacking two fields along a tensor position is the stack of the point tensors *)
+Theorem stack_tensor_pointwise (a b : arr) Ne nPg s z j :
+  shape a = Ne :: nPg :: s -> shape b = Ne :: nPg :: s ->
+  norm_axis (S (2 + length s)) z = 2 + j -> j <= length s ->
+  exists r, fe_stack V vzero z [OFe V a; OFe V b] = RFe V r /\
+            shape r = Ne :: nPg :: insert_nth j 2 s /\
+            forall e p k, dat r (e :: p :: k) =
+              dat (nth (nth j k 0) [a; b] (scalar_arr V vzero)) (e :: p :: remove_nth j k).
+Proof.
+  intros Ha Hb Hz Hj. unfold fe_stack, oshape. cbn [oarr]. rewrite Ha. cbn [length].
+  change (S (S (S (length s)))) with (S (2 + length s)). rewrite Hz.
+  replace (2 + j <=? S (S (length s))) with true by (symmetry; apply Nat.leb_le; lia).
+  cbn [forallb andb oarr]. rewrite Ha, Hb, list_eqb_refl. cbn [andb map length].
+  rewrite insert_nth_lead. eexists. split.
+  - apply wrap_on_batch with (bs := [Ne; nPg]) (X := insert_nth j 2 s);
+      [apply (fe_shape_two_same a b Ne nPg s s Ha Hb) | reflexivity | reflexivity | reflexivity].
+  - split; [reflexivity|]. intros e p k. cbn [C12_FeTensor.dat]. rewrite remove_nth_lead. reflexivity.
+Qed.
+
+(* np.stack([a, b], axis=0): the result is (2, Ne, nPg, ...), the leading axes are NOT preserved;
+   the written rule types it as a field exactly in the coincidence 2 = Ne = nPg *)
+Theorem stack_lead_typing (a b : arr) Ne nPg s :
+  shape a = Ne :: nPg :: s -> shape b = Ne :: nPg :: s ->
+  exists r, shape r = 2 :: Ne :: nPg :: s /\
+            (forall i e p k, dat r (i :: e :: p :: k) = dat (nth i [a; b] (scalar_arr V vzero)) (e :: p :: k)) /\
+            ((2 = Ne /\ Ne = nPg) -> fe_stack V vzero 0%Z [OFe V a; OFe V b] = RFe V r) /\
+            (~ (2 = Ne /\ Ne = nPg) -> fe_stack V vzero 0%Z [OFe V a; OFe V b] = RPlain V r).
+Proof.
+  intros Ha Hb.
+  exists (mkArr V (2 :: Ne :: nPg :: s)
+            (fun k => dat (nth (nth 0 k 0) [a; b] (scalar_arr V vzero)) (remove_nth 0 k))).
+  split; [reflexivity|]. split; [intros; reflexivity|].
+  unfold fe_stack, oshape. cbn [oarr]. rewrite Ha.
+  cbn [length norm_axis Z.ltb Z.compare Z.to_nat Nat.leb forallb andb oarr].
+  rewrite Ha, Hb, list_eqb_refl. cbn [andb map length insert_nth oarr].
+  unfold wrap. rewrite (fe_shape_two_same a b Ne nPg s s Ha Hb). cbn [existsb is_fe orb andb].
+  unfold wrap_is_fe. cbn [C12_FeTensor.shape length Nat.leb firstn list_eqb andb]. split.
+  - intros [<- <-]. reflexivity.
+  - intros N. destruct (2 =? Ne) eqn:E1; [|reflexivity]. destruct (Ne =? nPg) eqn:E2; [|reflexivity].
+    apply Nat.eqb_eq in E1, E2. exfalso. apply N. auto.
+Qed.
+
+(* ---- np.concatenate along a tensor axis is the concatenation of the point tensors ---- *)
+Lemma set_nth_lead j v x y l : set_nth (2 + j) v (x :: y :: l) = x :: y :: set_nth j v l.
+Proof. reflexivity. Qed.
+
+Lemma nth_set_nth j v : forall k, j < length k -> nth j (set_nth j v k) 0 = v.
+Proof.
+  induction j; destruct k; simpl; intros; try lia; try reflexivity. apply IHj. lia.
+Qed.
+
+Theorem concat_tensor_pointwise (a b : arr) Ne nPg s t z j :
+  shape a = Ne :: nPg :: s -> shape b = Ne :: nPg :: t ->
+  norm_axis (2 + length s) z = 2 + j -> j < length s ->
+  set_nth j 0 s = set_nth j 0 t ->
+  exists r, fe_concat V vzero z [OFe V a; OFe V b] = RFe V r /\
+            shape r = Ne :: nPg :: set_nth j (nth j s 0 + nth j t 0) s /\
+            forall e p k, length k = length s -> dat r (e :: p :: k) =
+              if nth j k 0 <? nth j s 0 then dat a (e :: p :: k)
+              else if nth j k 0 - nth j s 0 <? nth j t 0 then dat b (e :: p :: set_nth j (nth j k 0 - nth j s 0) k)
+              else vzero.
+Proof.
+  intros Ha Hb Hz Hj Hoff. unfold fe_concat, oshape. cbn [oarr]. rewrite Ha. cbn [length].
+  change (S (S (length s))) with (2 + length s). rewrite Hz.
+  replace (2 + j <? 2 + length s) with true by (symmetry; apply Nat.ltb_lt; lia).
+  cbn [forallb andb oarr map]. unfold same_off_axis. rewrite Ha, Hb, !set_nth_lead.
+  cbn [list_eqb]. rewrite !Nat.eqb_refl, Hoff, !list_eqb_refl. cbn [andb map fold_right].
+  change (nth (2 + j) (Ne :: nPg :: s) 0) with (nth j s 0).
+  change (nth (2 + j) (Ne :: nPg :: t) 0) with (nth j t 0). rewrite Nat.add_0_r.
+  eexists. split.
+  - apply wrap_on_batch with (bs := [Ne; nPg]) (X := set_nth j (nth j s 0 + nth j t 0) s);
+      [apply (fe_shape_two_same a b Ne nPg s t Ha Hb) | reflexivity | reflexivity | reflexivity].
+  - split; [reflexivity|]. intros e p k Lk. cbn [C12_FeTensor.dat concat_pick]. rewrite Ha, Hb.
+    change (nth (2 + j) (Ne :: nPg :: s) 0) with (nth j s 0).
+    change (nth (2 + j) (e :: p :: k) 0) with (nth j k 0).
+    destruct (nth j k 0 <? nth j s 0); [reflexivity|].
+    rewrite set_nth_lead.
+    change (nth (2 + j) (Ne :: nPg :: t) 0) with (nth j t 0).
+    change (nth (2 + j) (e :: p :: set_nth j (nth j k 0 - nth j s 0) k) 0) with (nth j (set_nth j (nth j k 0 - nth j s 0) k) 0).
+    rewrite nth_set_nth by lia. reflexivity.
+Qed.
+
+(* ---- out= and the in-place operators ---- *)
+Theorem ufunc2_out_spec op x y os ofe r :
+  (fe_ufunc2_out V vbin op x y os ofe = RFe V r \/ fe_ufunc2_out V vbin op x y os ofe = RPlain V r) ->
+  (fe_ufunc2 V vbin op x y = RFe V r \/ fe_ufunc2 V vbin op x y = RPlain V r) /\ shape r = os.
+Proof.
+  unfold fe_ufunc2_out. destruct (fe_ufunc2 V vbin op x y) as [r'|r'|v|c];
+    try (intros [H|H]; discriminate).
+  - destruct (list_eqb (shape r') os) eqn:E; [|intros [H|H]; discriminate].
+    apply list_eqb_eq in E. destruct ofe; intros [H|H]; inversion H; subst; auto.
+  - destruct (list_eqb (shape r') os) eqn:E; [|intros [H|H]; discriminate].
+    apply list_eqb_eq in E. destruct ofe; intros [H|H]; inversion H; subst; auto.
+Qed.
+
+(* `field op= plain`: succeeds exactly when the plain array broadcasts INTO the field's tensor
+   shape, returns the field, with the pointwise values *)
+Theorem inplace_fe_plain op (a c : arr) Ne nPg s u :
+  shape a = Ne :: nPg :: s -> np_bcast s (shape c) = Some u ->
+  (u = s -> exists r, fe_ufunc2_out V vbin op (OFe V a) (OPlain V c) (shape a) true = RFe V r /\
+                      shape r = shape a /\
+                      forall e p K, length K = length s ->
+                        dat r (e :: p :: K) = vbin op (dat a (cl Ne e :: cl nPg p :: bidx s K)) (dat c (bidx (shape c) K))) /\
+  (u <> s -> fe_ufunc2_out V vbin op (OFe V a) (OPlain V c) (shape a) true = RErr V 1).
+Proof.
+  intros Hs Hb. destruct (elementwise_fe_plain op a c Ne nPg s u Hs Hb) as [r [H1 [H2 H3]]].
+  unfold fe_ufunc2_out. rewrite H1, H2, Hs. split.
+  - intros ->. rewrite list_eqb_refl. exists r. split; [reflexivity|]. split; [exact H2|]. exact H3.
+  - intros N. destruct (list_eqb (Ne :: nPg :: u) (Ne :: nPg :: s)) eqn:E; [|reflexivity].
+    apply list_eqb_eq in E. inversion E. contradiction.
+Qed.
+
 End Values.
